@@ -1,6 +1,7 @@
 // gen: write pool document gen/<i> of a seed to a file (same bytes as the workers' pool).
 //
 //	gen <seed> <i> <out.pdf>
+//	gen <seed> feature:<j> <out.pdf>   feature document j (internal/opwl/features.go)
 package main
 
 import (
@@ -9,12 +10,26 @@ import (
 	"math/rand/v2"
 	"os"
 	"strconv"
+	"strings"
 
 	"verif/harness/internal/opwl"
 )
 
 func main() {
 	seed, _ := strconv.ParseUint(os.Args[1], 10, 64)
+	if strings.HasPrefix(os.Args[2], "feature:") {
+		j, _ := strconv.Atoi(strings.TrimPrefix(os.Args[2], "feature:"))
+		h := fnv.New64a()
+		h.Write([]byte("opwl-feature#" + strconv.Itoa(j))) // vk: t.RNGi("opwl-feature", j)
+		in, data := opwl.GenFeature(rand.New(rand.NewPCG(seed, h.Sum64())), j)
+		if in == nil {
+			fmt.Println("no such feature document")
+			os.Exit(1)
+		}
+		os.WriteFile(os.Args[3], data, 0o644)
+		fmt.Printf("%s pages=%d tags=%v\n", in.Name, in.Pages, in.Tags)
+		return
+	}
 	i, _ := strconv.Atoi(os.Args[2])
 	h := fnv.New64a()
 	h.Write([]byte("opwl-gen#" + strconv.Itoa(i))) // vk: t.RNGi("opwl-gen", i)
